@@ -210,3 +210,48 @@ def cast_cases(rng, tier):
             ops = [[op, r] for op in range(5) for r in range(1, 8)]
             cases.append("108 %d %d | %s" % (e, c, " ; ".join("%d %d" % (a, b) for a, b in ops)))
     return cases, {"cast_cells": 8 * 3 * 35, "exhaustive": True}
+
+
+def ir_monitor(l, impl_rows):
+    """model-independent oracle on the glue-IR rows of a REAL trait expansion: the wiring facts of the property statements"""
+    if not l.startswith("1 ") or not impl_rows:
+        return []
+    fails = []
+    hdr, methods = vlib.parse_case(l)
+    rows = [[int(x) for x in r.split()] for r in impl_rows.split(" ; ")]
+    if len(rows) != len(methods):
+        return ["%d vtable rows for %d methods" % (len(rows), len(methods))]
+    for k, (m, r) in enumerate(zip(methods, rows)):
+        if len(r) < 8:
+            fails.append("method %d: expansion not recognised" % k); continue
+        pos, reprc, abic, recv, nc = r[0:5]
+        if pos != k: fails.append("method %d sits in vtable slot %d (declaration order broken)" % (k, pos))
+        if reprc != 1: fails.append("vtable struct is not #[repr(C)]")
+        if abic != 1: fails.append("vtable entry %d is not an extern \"C\" function pointer" % k)
+        if recv != m[0]: fails.append("vtable entry %d takes the container in form %d for receiver kind %d" % (k, recv, m[0]))
+        ctys = r[5:5 + 2 * nc]
+        i = 5 + 2 * nc
+        cret = r[i:i + 2]; i += 2
+        if 99 in ctys[0::2] or cret[0] == 99: fails.append("vtable entry %d has a parameter/return type that is not one of the C-representable forms" % k)
+        default_ok = r[i]; i += 1
+        if default_ok != 1: fails.append("Default vtable does not store cglue_wrapped_m%d in slot m%d" % (k, k))
+        w_access, w_target, w_ctx, w_n = r[i:i + 4]; i += 4
+        w_convs = r[i:i + w_n]; i += w_n
+        w_argc_ok, w_mapped, w_tail, w_unknown = r[i:i + 4]; i += 4
+        if w_target != 1: fails.append("wrapper of m%d does not call <ObjType as Trait>::m%d" % (k, k))
+        if w_access != m[0]: fails.append("wrapper of m%d accesses the object in form %d for receiver kind %d" % (k, w_access, m[0]))
+        if w_n != m[4] or w_argc_ok != 1: fails.append("wrapper of m%d forwards %d of %d arguments" % (k, w_n, m[4]))
+        if 9 in w_convs or w_tail == 9 or w_unknown: fails.append("wrapper of m%d contains a statement/conversion outside the known forms" % k)
+        i_fetch, i_cont, i_guard, i_first, i_n = r[i:i + 5]; i += 5
+        i_convs = r[i:i + i_n]; i += i_n
+        i_okout, i_tail, i_unknown = r[i:i + 3]
+        if i_fetch != 1: fails.append("trait re-implementation of m%d does not fetch vtable slot m%d" % (k, k))
+        if i_cont != m[0] or i_first != 1: fails.append("trait re-implementation of m%d passes the container in form %d for receiver kind %d" % (k, i_cont, m[0]))
+        if (m[0] == 2) != (i_guard == 1): fails.append("context guard of m%d: %d for receiver kind %d" % (k, i_guard, m[0]))
+        if i_n != m[4]: fails.append("trait re-implementation of m%d passes %d of %d arguments" % (k, i_n, m[4]))
+        if 9 in i_convs or i_tail == 9 or i_unknown or i_okout == 9: fails.append("trait re-implementation of m%d contains a statement/conversion outside the known forms" % k)
+        # the out-slot protocol of integer results: parameter, writer and reader come together
+        has_okout_param = 11 in ctys[0::2]
+        if has_okout_param != (w_tail == 3) or has_okout_param != (i_tail == 5) or has_okout_param != (i_okout == 1):
+            fails.append("m%d: ok_out parameter=%s wrapper tail=%d decoder tail=%d slot passed=%d do not belong together" % (k, has_okout_param, w_tail, i_tail, i_okout))
+    return fails[:4]
